@@ -1,7 +1,8 @@
 import OFCore.Period
 import OFCore.PeriodSpec
+import OFCore.PeriodText
 /-!
-# Plain / ADD / DIVIDE requests (import-free apart from the period model)
+# Plain / ADD / DIVIDE requests (import-free apart from the period and period-text models)
 
 Transcription of the REPAIRED code (fixes F-C03a: eternal-period guard in `calculate_add`,
 F-C03b: DAY and WEEKDAY branches in `_check_period_consistency`):
@@ -12,6 +13,8 @@ F-C03b: DAY and WEEKDAY branches in `_check_period_consistency`):
   `put_in_cache` (skipped when the value is not stored: `variables_to_drop`, cache blacklist)
 * `openfisca_core/populations/_core_population.py` : `CorePopulation.__call__`
   (`periods.period`, `check_period_validity`, option dispatch)
+* the conversion `periods.period(period)` every entry point applies to an argument that is not a
+  `Period` (`parsePeriod`, the C05 model), and `Simulation.calculate_output`
 
 The engine is abstracted by `val : Period → Int`: the value the variable's formula (or input,
 or default) yields for a period. The correspondence check instantiates it with a function that
@@ -109,5 +112,56 @@ def callWithOptions (val : Period → Int) (store : Bool) (defUnit : DUnit) (par
       else if os.contains .add then (calcAdd val store defUnit p).map (fun (v : Int) => (v : Rat))
       else if os.contains .divide then calcDivide val store defUnit p
       else .error "invalid option"
+
+/-! ## the period argument as the caller writes it -/
+
+/-- a `Period` object, a `str` / `int` (its text), or something that is none of these -/
+inductive PArg
+  | period (p : Period)
+  | text (cs : List Char)
+  | invalid
+deriving Repr, Inhabited
+
+/-- `periods.period(value)` as the entry points apply it: a `Period` is kept, text is parsed -/
+def resolveArg : PArg → Except String Period
+  | .period p => .ok p
+  | .text cs => parsePeriod cs
+  | .invalid => .error "period"
+
+/-- `Simulation.calculate(variable, period)` -/
+def calcPlainArg (val : Period → Int) (store : Bool) (defUnit : DUnit) (a : PArg) : Except String Int := do
+  calcPlain val store defUnit (← resolveArg a)
+
+/-- `Simulation.calculate_add(variable, period)` -/
+def calcAddArg (val : Period → Int) (store : Bool) (defUnit : DUnit) (a : PArg) : Except String Int := do
+  calcAdd val store defUnit (← resolveArg a)
+
+/-- `Simulation.calculate_divide(variable, period)` -/
+def calcDivideArg (val : Period → Int) (store : Bool) (defUnit : DUnit) (a : PArg) : Except String Rat := do
+  calcDivide val store defUnit (← resolveArg a)
+
+/-- `population(variable, period, options)`: `periods.period(period)` first, then the dispatch -/
+def callWithArg (val : Period → Int) (store : Bool) (defUnit : DUnit) (a : PArg)
+    (opts : Option (List Opt)) : Except String Rat :=
+  match resolveArg a with
+  | .error e => .error e
+  | .ok p => callWithOptions val store defUnit (some p) opts
+
+/-- `CorePopulation.check_period_validity`: only the type of the argument is looked at -/
+def checkPeriodValidity : PArg → Except String Unit
+  | .period _ => .ok ()
+  | .text _ => .ok ()
+  | .invalid => .error "period validity"
+
+/-- `Simulation.calculate_output`: the variable's `calculate_output` attribute (`none`,
+    `calculate_output_add`, `calculate_output_divide`) chooses the request; the period is
+    converted by the request it forwards to -/
+def calcOutput (val : Period → Int) (store : Bool) (defUnit : DUnit) (co : Option Opt) (a : PArg) :
+    Except String Rat :=
+  match co with
+  | none => (calcPlainArg val store defUnit a).map (fun (v : Int) => (v : Rat))
+  | some .add => (calcAddArg val store defUnit a).map (fun (v : Int) => (v : Rat))
+  | some .divide => calcDivideArg val store defUnit a
+  | some .other => .error "no such calculate_output"
 
 end OFCore
